@@ -41,7 +41,7 @@ MSGS = [None, 'café ☃', 'line1\nline2\n  indented', 'x' * 300,
 FAULT_KINDS = ['fail', 'error', 'setup_error', 'teardown_error',
                'cleanup_error', 'body_teardown_error', 'body_cleanup_error',
                'fail_teardown_error', 'subtests', 'uxsuccess', 'sysexit',
-               'setup_fail']
+               'setup_fail', 'cleanup_builtin_error']
 
 
 PYTHONS = ['/root/.pyenv/versions/3.9.18/bin/python',
